@@ -6,6 +6,7 @@
 From Coq Require Import ZArith List Bool Floats.
 From Geo Require Import Base.GoPrim Gen.EdgeDist Gen.Approx.  (* s2_Interpolate lives in Gen.EdgeDist since the C17 merge *)
 From Geo Require Import Gen.Area.  (* s2_maxAngle *)
+From Geo Require Import Gen.CellIDFull.  (* s2_xyzToFaceUV *)
 Import ListNotations.
 Local Open Scope bool_scope.
 
